@@ -1,6 +1,8 @@
 package main
 
 import (
+	"runtime"
+	"strconv"
 	"bytes"
 	"context"
 	"fmt"
@@ -322,7 +324,35 @@ func runSolver(sp solverSpec, file string, timeoutS, seed int, ctx context.Conte
 }
 
 // solve races the portfolio on one obligation. The first definite answer wins.
+// loadFactor stretches the wall-clock solver limits when the machine is oversubscribed (other checks, test
+// suites or compilers running beside this one): a limit meant as "10 s of solver time" must not turn into a
+// spurious timeout — and, for a baseline obligation, into a false alarm — because the solver got a fraction
+// of a core. 1 on a quiet machine; load average per core otherwise, capped at 8.
+func loadFactor() int {
+	data, err := os.ReadFile("/proc/loadavg")
+	if err != nil {
+		return 1
+	}
+	f := strings.Fields(string(data))
+	if len(f) == 0 {
+		return 1
+	}
+	l, err := strconv.ParseFloat(f[0], 64)
+	if err != nil {
+		return 1
+	}
+	k := int(l/float64(runtime.NumCPU()) + 0.5)
+	if k < 1 {
+		k = 1
+	}
+	if k > 8 {
+		k = 8
+	}
+	return k
+}
+
 func solve(o *Obligation, dir string, timeoutS, seed int, wantModel bool, only []string) SolveResult {
+	timeoutS *= loadFactor()
 	file := filepath.Join(dir, sanitize(o.Name)+".smt2")
 	if len(file) > 200 {
 		file = filepath.Join(dir, fmt.Sprintf("%s_%x.smt2", sanitize(o.Name)[:100], hashStr(o.Name)))
